@@ -171,6 +171,18 @@ def run_case(case):
     # clean up whatever the history left enabled (main thread only; others have ended)
     while prof.enable_count > 0:
         prof.disable_by_count()
+    # finalise what the history abandoned *now*: a decorated generator collected later would run its wrapper's
+    # enable / disable bracket (of this case's profiler) in the middle of another case
+    for g in list(slots.values()):
+        try:
+            g.close()
+        except BaseException:   # noqa
+            pass
+    slots.clear()
+    import gc
+    gc.collect()
+    while prof.enable_count > 0:
+        prof.disable_by_count()
     return {'obs': marks, 'error': err}
 
 
